@@ -1,9 +1,16 @@
 import re
 import runner as R
 from props import *
+import C15_gen
+
+LEAN_MODULES = ['C15'] + C15_gen.LEAN_MODULES
 
 MANIFEST = dict(
-    text="Proved in Lean (RoProps/C15.lean) over the executable model of the Go loops (RoModel/Resub.lean), for every list of attempt outcomes, every "
+    text="The subscribe functions of RetryWithConfig, OnErrorResumeNextWith, Catch, DoWhileIWithContext, WhileIWithContext and RepeatWith are re-translated from the Go source on every run "
+         "(go/extract/loopgen.go -> lean/RoGen/LoopGen.lean: statement-by-statement loop programs; meaning: RoModel/ResubGen.lean) and proved, for every configuration, cancellation point, cut and outcome list, "
+         "to compute exactly the Result of the hand-written loops below (RoProps/C15gen.lean: retry_gen, resume_gen, catch_gen, repeat_gen, while_gen, doWhile_gen; the Conforms theorems restated for the regenerated text; "
+         "pinned tables: parameter guards, which observable each attempt subscribes and that it is waited for). "
+         "Proved in Lean (RoProps/C15.lean) over the executable model of the Go loops (RoModel/Resub.lean), for every list of attempt outcomes, every "
          "configuration (MaxRetries, Delay, ResetOnSuccess; repeat count; truth sequence of the condition; number of fallbacks / sources), every cancellation "
          "point of the subscription context and every point at which the downstream goes away: the subscribe/teardown log is s1 t1 s2 t2 ... (never two attempts "
          "alive), the number of attempts is the closed form `firstStop` (characterised as the unique least stopping attempt), the values of exactly these attempts "
@@ -18,7 +25,7 @@ MANIFEST = dict(
          "model-independent oracle (sequential log, closed-form attempt count, forwarded values, terminal) on the implementation result."
          ' decoy=1: the same operator VALUE applied to a second, counting upstream after the pipeline under test was built - never subscribed, nothing else changes.'
          ' tdslow=1: the teardown of every attempt takes a moment and is logged when it has finished - a loop that wakes up on the terminal callback or on the done flag instead of on the end of the teardown overlaps every time (a disagreement must reproduce twice: the listed Wait-window schedule can appear once under scheduler noise).',
-    technique="Lean 4 proof (recursive model of each loop = closed-form specification, by induction on the outcome list / condition sequence / count) + differential correspondence",
+    technique="Lean 4 proof (loop programs regenerated from the Go source = recursive model of each loop = closed-form specification, by induction on the outcome list / condition sequence / count) + differential correspondence",
     ref='5/C15')
 
 ALL_FIELDS = ('trace', 'log', 'attempts', 'live', 'evals', 'prompt', 'decoy', 'again')
@@ -201,13 +208,15 @@ def check(ctx):
         d['attempts'][a] = d['attempts'].get(a, 0) + 1
         d['cancel'] += f.get('cancel', '-') != '-'
         d['cut'] += f.get('cut', '-') != '-'
+    gen = C15_gen.parts(ctx)
     return dict(
-        rule='kind resub: Retry, RetryWithConfig (MaxRetries 0..3(5), Delay 0/300us, ResetOnSuccess), RepeatWith (count 0..3(5)), While/DoWhile (plain and IWithContext; '
+        search=gen['search'],
+        rule=gen['rule_part'] + ' || kind resub: Retry, RetryWithConfig (MaxRetries 0..3(5), Delay 0/300us, ResetOnSuccess), RepeatWith (count 0..3(5)), While/DoWhile (plain and IWithContext; '
              'every truth sequence of length <= 3(4)), Catch, OnErrorResumeNextWith (0..3(5) fallbacks), Concat (0..3(5) sources) x every list of <= 3 (thorough: 4) attempt '
              'outcomes with <= 2 values ending in completion or error + seeded longer lists (<= 8 attempts, <= 3 values) x {sync, goroutine} attempts (+ the driven Wait-window schedule for lists <= 2) x downstream leaving '
              'after 1..3 values x (a fifth of the synchronous cases; all in thorough) the operator value applied to a second, counting upstream after the pipeline was built (decoy: never subscribed, nothing else changes) x (Retry) context cancelled before subscribing / before each notification of each attempt / in each teardown; compared EQUAL: delivered trace '
              'with contexts, subscribe/teardown event log, number of subscriptions, max attempts alive, condition evaluations; oracle on the implementation alone: '
              'sequential log, closed-form count, forwarded values, terminal, promptness of a cancellation during a 3 s delay; non-trivial = at least two attempts or a delivered value',
         assumptions=['attempts that run on goroutines are scheduled with one P (GOMAXPROCS(1)) so that the run is deterministic (the terminal arrives while the operator is in Wait()); '
-                     'the other asynchronous schedule - terminal before the operator reaches Wait() - is driven explicitly by mode=tdrace (known finding: Wait window)'],
+                     'the other asynchronous schedule - terminal before the operator reaches Wait() - is driven explicitly by mode=tdrace (known finding: Wait window)'] + gen['assumptions'],
         extra={'distribution': dist})
